@@ -360,6 +360,13 @@ class Interproc:
         an.watch = self.watch
         an.invariants = self.invariants
         an.nowrap = self.nowrap
+        an.mag = getattr(self, "mag", False)
+        if an.mag:
+            cfg = getattr(self, "mag_cfg", {})
+            an.mag_fields = cfg.get("fields", frozenset())
+            an.mag_variants = cfg.get("variants", frozenset())
+            an.mag_calls = cfg.get("calls")
+            an.mag_prop = cfg.get("prop")
         res = an.analyze(b)
         absdom.MAX_PARAM = 0
         written = None
@@ -470,9 +477,11 @@ class Interproc:
                 and (p[1] or not b.defs.get(p[0])) for p in places)
         if kind == "conj":
             vals = [x for (a, bb, c) in parts[0] for x in (a, bb)]
+        elif kind == "mag":
+            vals = list(parts[0])
         else:
             vals = [x for x in parts if isinstance(x, tuple) and x and x[0] in ("n", "iv")]
-        return kind in ("conj", "nz") and all(self._val_ok(b, v, written) for v in vals) \
+        return kind in ("conj", "nz", "mag") and all(self._val_ok(b, v, written) for v in vals) \
             and any(v[0] == "n" and v[1] is not None for v in vals)
 
     # -- return summaries
@@ -859,6 +868,12 @@ class Interproc:
             i = st.val_iv(dv)
             ok = (i[0] is not None and i[0] > 0) or (i[1] is not None and i[1] < 0)
             return ok, ("nz", dv), None
+        if lf.kind == "mag":
+            dvs = [self.instantiate_val(an, ctx, x) for x in lf.parts[0]]
+            dvs = [x for x in dvs if x is not None]
+            if not dvs:
+                return False, None, None
+            return any(an.mag_bounded(st, x) for x in dvs), ("mag", dvs), None
         return False, None, None
 
     def assume_lifted(self, an, ctx, lf, lift, cond):
@@ -907,10 +922,19 @@ class Interproc:
                 inst_lift = lift
                 nl = None
                 raw_un = lift[1] if (not ok and lift is not None and lift[0] == "conj") else None
+                if lift is not None and lift[0] == "mag":
+                    raw_un = ("mag", lift[1], (not ok) and any(an.mag_tainted(ctx.st, x) for x in lift[1]))
                 if not ok and lift is not None:
                     if lift[0] == "conj":
                         an.cur_dirty = ctx.st.dirty
                         lift = an.conj_lift(lift[1], ctx.st)
+                    elif lift[0] == "mag":
+                        ws = []
+                        for w in lift[1]:
+                            w = ctx.st.norm(w) if (w[0] == "n" and w[1] is not None) else w
+                            if w[0] == "n" and w[1] is not None and an.liftable_term(w[1], ctx.st.dirty):
+                                ws.append(w)
+                        lift = ("mag", ws) if ws else None
                     if lift is not None:
                         nl = Lifted(lf.cls, lift[0], lift[1:], lf.origin, lf.desc, lf.what, lf.file, lf.line, lf.chain + [an.b.id], lf.must)
                 if an.collect:
